@@ -459,6 +459,32 @@ type evSpec struct {
 	line      int
 	width     int
 	strVars   string // when set: value given to the package's string variables (a configurable message key …)
+	// header variation (zero values: evalTime, INFO, "_app_tag")
+	at    time.Time
+	level string
+	code  int64
+	tag   string
+}
+
+func (ev evSpec) when() time.Time {
+	if ev.at.IsZero() {
+		return evalTime
+	}
+	return ev.at
+}
+
+func (ev evSpec) lvl() (int64, string) {
+	if ev.level == "" {
+		return 300, "INFO"
+	}
+	return ev.code, ev.level
+}
+
+func (ev evSpec) tagName() string {
+	if ev.tag == "" {
+		return "_app_tag"
+	}
+	return ev.tag
 }
 
 type fieldSpec struct {
@@ -583,15 +609,16 @@ func (w *encWorld) runIn(ip *Interp, layout *types.Named, ev evSpec) ([]byte, *I
 		var err error
 		switch es.Field(i).Name() {
 		case "Level":
-			e.F[i] = w.ew.ll.level(ip, 300, "INFO")
+			lc, ln := ev.lvl()
+			e.F[i] = w.ew.ll.level(ip, lc, ln)
 		case "Time":
-			e.F[i] = &TimeV{T: evalTime}
+			e.F[i] = &TimeV{T: ev.when()}
 		case "File":
 			e.F[i] = kStr(ev.file)
 		case "Line":
 			e.F[i] = kInt(int64(ev.line))
 		case "Tag":
-			e.F[i] = kStr("_app_tag")
+			e.F[i] = kStr(ev.tagName())
 		case "CtxString":
 			e.F[i] = kStr(ev.ctxString)
 		case "CtxFields":
@@ -923,6 +950,76 @@ func (c *Ctx) checkLayoutSemantics(r *Report, ro *Roles, rule string) (jsonOK, t
 						failT("%s: the key=value part is %.140q, the JSON tokens of the same event give %.140q", describe(ev), rest, wantRest)
 					}
 				}
+			}
+		}
+	}
+	// (4b) header sequence: one interpreter state (pools, caches, package variables) for the whole sequence, both
+	// layouts alternating: the same instant in different zones, the same wall clock at different instants, neighbouring
+	// seconds in both directions, millisecond boundaries, every level, several tags
+	if oodJ == "" && oodT == "" && len(badJ) == 0 && len(badT) == 0 {
+		ip := w.interp()
+		base := time.Date(2024, 2, 29, 23, 59, 58, 7_000_000, time.UTC)
+		zones := []*time.Location{time.UTC, time.FixedZone("A", 5*3600+1800), time.FixedZone("B", -8*3600), time.FixedZone("C", 30), time.FixedZone("D", 14*3600)}
+		var seq []evSpec
+		add := func(t time.Time, code int64, level, tag string) {
+			seq = append(seq, evSpec{file: "a.go", line: 7, width: 48, at: t, code: code, level: level, tag: tag, fields: []fieldSpec{{key: "k", kind: "any", cs: &encCase{name: "int 1", mk: func(ip *Interp) AV { return anyOf(basicT(types.Int), kInt(1)) }, w: want{kind: "int", i: 1}}}}})
+		}
+		for _, z := range zones {
+			add(base.In(z), 300, "INFO", "_app_tag") // one instant, five zones
+		}
+		for _, z := range zones {
+			add(time.Date(2024, 2, 29, 23, 59, 58, 7_000_000, z), 300, "INFO", "_app_tag") // one wall clock, five instants
+		}
+		for _, d := range []time.Duration{time.Second, -time.Second, 0, 993 * time.Millisecond, -8 * time.Millisecond, -7 * time.Millisecond, 3 * time.Millisecond, 93 * time.Millisecond, time.Hour, 24 * time.Hour, -366 * 24 * time.Hour, 999 * time.Microsecond} {
+			add(base.Add(d), 300, "INFO", "_app_tag")
+			add(base.Add(d).In(zones[1]), 300, "INFO", "_app_tag")
+		}
+		add(time.Date(1999, 12, 31, 23, 59, 59, 999_000_000, time.UTC), 300, "INFO", "_app_tag")
+		add(time.Date(2000, 1, 1, 0, 0, 0, 0, time.UTC), 300, "INFO", "_app_tag")
+		add(time.Date(9999, 12, 31, 23, 59, 59, 999_999_999, time.UTC), 300, "INFO", "_app_tag")
+		add(time.Date(1, 1, 1, 0, 0, 0, 1_000_000, time.UTC), 300, "INFO", "_app_tag")
+		for _, li := range w.ew.levelList() {
+			add(base, li.code, li.name, "_biz_order_pay")
+		}
+		add(base, 300, "INFO", "_x")
+		add(base, 300, "INFO", "_rpc_a_very_long_tag_name_of_36_chars")
+		for i, ev := range seq {
+			for _, lay := range []*types.Named{textLay, jsonLay, textLay} {
+				out, _, err := w.runIn(ip, lay, ev)
+				runs++
+				if err != nil {
+					if _, isOOD := err.(oodError); isOOD {
+						if lay == textLay {
+							oodT = err.Error()
+						} else {
+							oodJ = err.Error()
+						}
+					} else {
+						failT("header sequence, event %d: %v", i+1, err)
+					}
+					break
+				}
+				_, ln := ev.lvl()
+				ts := ev.when().Format("2006-01-02T15:04:05.000")
+				if lay == textLay {
+					head := "[" + strings.ToUpper(ln) + "][" + ts + "][a.go:7] " + ev.tagName() + "||"
+					if !strings.HasPrefix(string(out), head) {
+						failT("header sequence, event %d (time %s, level %s, tag %s, after %d other events in the same evaluation state): the line does not start with %q: %.120q", i+1, ev.when().Format(time.RFC3339Nano), ln, ev.tagName(), i, head, out)
+					}
+				} else {
+					dec := json.NewDecoder(bytes.NewReader(out))
+					dec.UseNumber()
+					v, derr := decodeJSON(dec)
+					ws := map[string]want{"level": {kind: "string", s: strings.ToLower(ln)}, "time": {kind: "string", s: ts}, "fileLine": {kind: "string", s: "a.go:7"}, "tag": {kind: "string", s: ev.tagName()}, "k": {kind: "int", i: 1}}
+					if derr != nil {
+						failJ("header sequence, event %d: %v", i+1, derr)
+					} else if m := matchWant(want{kind: "object", keys: []string{"level", "time", "fileLine", "tag", "k"}, obj: ws}, v, "$"); m != "" {
+						failJ("header sequence, event %d (time %s, level %s, tag %s, after %d other events in the same evaluation state): %s; line: %.160q", i+1, ev.when().Format(time.RFC3339Nano), ln, ev.tagName(), i, m, out)
+					}
+				}
+			}
+			if oodJ != "" || oodT != "" || len(badJ) > 0 || len(badT) > 0 {
+				break
 			}
 		}
 	}
